@@ -1,3 +1,4 @@
 pub mod builder;
 pub mod inl;
+pub mod iter;
 pub mod mpc;
